@@ -570,9 +570,20 @@ type dump struct {
 
 func makeDump(fns []*ir.Function) dump {
 	var d dump
-	for _, fn := range withAnons(fns) {
-		d.entries = append(d.entries, keyOf(fn)+"\x00"+dumpFn(fn))
+	all := withAnons(fns)
+	d.entries = make([]string, len(all))
+	var wg sync.WaitGroup
+	nw := min(8, runtime.GOMAXPROCS(0))
+	for w := 0; w < nw; w++ {
+		wg.Add(1)
+		go func() {
+			defer wg.Done()
+			for i := w; i < len(all); i += nw {
+				d.entries[i] = keyOf(all[i]) + "\x00" + dumpFn(all[i])
+			}
+		}()
 	}
+	wg.Wait()
 	sort.Strings(d.entries)
 	h := sha256.New()
 	for _, e := range d.entries {
@@ -872,18 +883,6 @@ func runProgram(spec *ProgSpec, modeStr string, reps int, seed uint64, abstract 
 		c.checkBuilt(pb, fns, "after Program.Build")
 		c.checkOnce(fns)
 		c.compare(ref, makeDump(fns), fmt.Sprintf("parallel build %d vs serial build", r))
-		if os.Getenv("C18DBG") != "" {
-			for _, fn := range fns {
-				if strings.Contains(fn.String(), "MakeBox") {
-					fmt.Fprintf(os.Stderr, "DBG par %p %s\n%s\n", fn, keyOf(fn), dumpFn(fn))
-				}
-			}
-			for _, fn := range sfns {
-				if strings.Contains(fn.String(), "MakeBox") {
-					fmt.Fprintf(os.Stderr, "DBG ser %p %s\n", fn, keyOf(fn))
-				}
-			}
-		}
 		if r == 0 && abstract {
 			res.Abstract, res.Final = pb.abstract(fns)
 		}
